@@ -101,7 +101,8 @@ CLAIMED = {
     "C10": dict(
         text="Model of the failure paths above the gateway (EZSP.enter_failed_state / connection_lost / close / stop_ezsp / the _command gate) fed by the failure notifications of the C11 gateway model and the C05 link model. Theorems: with an application attached every failure notification (ERROR frame, non-software RSTACK, exhausted ACK budget, connection loss with an error) yields exactly one controller-reset request, stops EZSP and releases the gateway; "
         "without one nothing is requested; once stopped every new command raises at the gate and nothing is sent, and EZSP stays stopped under further events; close() followed by connection_lost(None) yields no request (the gateway model forwards a loss to EZSP exactly when there was an error); the no-hang bound EZSP_CMD_TIMEOUT + ACK_TIMEOUTS·T_RX_ACK_MAX = 26 s from generated constants with the C05 clamp and C06 timeout theorems. "
-        "Tie: the full real stack (EZSP + Gateway + AshProtocol, use_thread=False) against the byte-level simulated NCP on the virtual clock: six failure kinds × five workload points × application attached or not × failure alone or batched with an ACK in one loop iteration; oracle on the application callback, the wire and call durations; EZSP-level reaction compared with the model.",
+        "Tie: the full real stack (EZSP + Gateway + AshProtocol, use_thread=False) against the byte-level simulated NCP on the virtual clock: six failure kinds × five workload points × application attached or not × failure alone or batched with an ACK in one loop iteration; oracle on the application callback, the wire and call durations; EZSP-level reaction compared with the model; further failure kind: an NCP that stops taking frames in but keeps sending callbacks; failures after an earlier life of the EZSP object (callbacks registered and removed, a scan's temporary callback). "
+        "The gateway half (connection_lost / eof_received / error_received / reset_received) is also translated from the source and proved equal to the model (see C11).",
         ref="6 C10",
         technique="Lean 4 proof (case analysis of the failure paths, composition with C05/C06/C11 theorems) + full-stack failure injection on a virtual clock",
         note="partial: the proxy thread between Gateway and EZSP (C20) and OS-level port errors (represented only by the exception passed to connection_lost) are not modelled; that no call outlives the bound is observed by the harness on the virtual clock, the theorem gives the bound's ingredients. ",
@@ -109,9 +110,10 @@ CLAIMED = {
     "C11": dict(
         text="Model of Gateway.reset / wait_for_startup_reset / reset_received / error_received / connection_lost / eof_received over the ASH receiver model, at loop-iteration granularity (batches of primitives that land in one iteration, then the scheduled wake-ups). Theorems: the request writes exactly 1A C0 38 BC 7E and arms RESET_TIMEOUT; for all codes an RSTACK resolves the request iff its code is RESET_SOFTWARE, "
         "any other code is reported as an NCP failure; an ERROR frame with any code is a failure and never a completion; other frames never touch the waiters; an RSTACK zeroes both frame counters from every counter state; TimeoutError exactly at start + RESET_TIMEOUT; an inductive invariant (attribute vs future object vs waiters) holds after every iteration; "
-        "after a connection loss or EOF, whatever happened earlier in the same iteration (resolved future, fired timeout, another loss), no reset or start-up waiter is left pending and connection_lost never raises. Tie: generated RESET_TIMEOUT/codes + real Gateway + AshProtocol on a virtual-time loop: all 256 RSTACK and 256 ERROR codes × 4 arrival patterns, all 64 counter states, losses/EOF at every step alone and batched in one iteration in both orders, random batches.",
+        "after a connection loss or EOF, whatever happened earlier in the same iteration (resolved future, fired timeout, another loss), no reset or start-up waiter is left pending and connection_lost never raises. Tie: generated RESET_TIMEOUT/codes + real Gateway + AshProtocol on a virtual-time loop: all 256 RSTACK and 256 ERROR codes × 4 arrival patterns, all 64 counter states, losses/EOF at every step alone and batched in one iteration in both orders, random batches; an unanswered request with frames arriving at various times before the deadline (timeout exactly RESET_TIMEOUT after the request). "
+        "Source-level: Gateway.reset_received / error_received / connection_lost / eof_received / _reset_cleanup / data_received / close are translated from bellows/uart.py's syntax tree on every run (harness/pytrans.py -> BV/Gen/SrcUart.lean, futures in a heap) and proved equal to the model's resetReceived / connectionLost under the heap invariant (BV/Proofs/Src/Uart.lean); c11_src_* restate the clauses over the generated definitions (connection_lost never raises, releases every waiter, clears both attributes).",
         ref="6 C11",
-        technique="Lean 4 proof (inductive invariant over iteration batches, case analysis over all codes) + exhaustive differential vs real Gateway/AshProtocol on a virtual-time loop",
+        technique="Lean 4 proof (inductive invariant over iteration batches, case analysis over all codes; source-level translation of the Gateway's synchronous methods proved equal to the model) + exhaustive differential vs real Gateway/AshProtocol on a virtual-time loop",
         note="Calls (reset, wait_for_startup_reset) start in their own iteration; I/O events are batched. ",
     ),
     "C12": dict(
@@ -144,9 +146,11 @@ CLAIMED = {
         "operation sequence over {start-up, subscribe, unsubscribe}, every table size, every initial table with each group at most once, every answer {OK, rejection, timeout} and every "
         "set.pop() choice; corollaries: host view = NCP non-zero entries, index partition, re-subscribe writes nothing, full table refuses, a failing call keeps the free count. "
         "Tie: exhaustive short histories + random long ones run on the real Multicast class against a stub NCP table and diffed with the model after every call; the same "
-        "predicates are evaluated on the implementation's state (oracle).",
+        "predicates are evaluated on the implementation's state (oracle). "
+        "Source-level: the coroutines Multicast._initialize / subscribe / unsubscribe are translated from bellows/multicast.py's syntax tree on every run (harness/pytrans.py -> BV/Gen/SrcMcast.lean; every await is a call on a scripted command layer, set.pop() a scripted choice) and proved to be the model's scan / subscribe / unsubscribe steps "
+        "(BV/Proofs/Src/Mcast.lean); c15_src_* restate the clauses over the generated definitions (a failing subscribe keeps the number of free indices).",
         ref="6 C15",
-        technique="Lean 4 proof (inductive invariant over op sequences) + exhaustive/random differential vs real Multicast",
+        technique="Lean 4 proof (inductive invariant over op sequences; source-level translation of the Multicast coroutines proved equal to the model's steps) + exhaustive/random differential vs real Multicast",
         note="NCP table semantics (an OK write is applied, a rejected or timed-out one is not) is the specification side. ",
     ),
     "C16": dict(
